@@ -24,6 +24,11 @@
        24 bits - by C09's size theorem - or are the unset placeholders when there is no frame), so parsing its
        bytes returns the encoder's own tree; with C01_stream_end_to_end / C01_frame_lossless that tree decodes to
        the input samples.
+     - PRECOMPUTED FRAMES (C15_precomputed_stream, C15_par_encoded_stream): a stream whose frames carry a stored bit
+       stream that is their own serialisation (what Frame::precompute_bitstream establishes, C15_precompute_coherent,
+       and what every worker of the multi-threaded encoder does) is written as the same bytes, and the parser
+       returns the same tree without the stored bytes; for the multi-threaded encoder's stream that is the
+       single-threaded encoder's tree.
    MODELLED, NOT PROVED: that parser.rs is the parser model and bitrepr.rs the writer model - decided on every run
    by the PARSE and CTOR correspondence streams (implementation parser vs parser model on emitted streams of
    every code class and their mutants; parse consumes all input, verifies, re-serialises to identical bytes,
@@ -31,7 +36,7 @@
 From FV Require Import Model.Base Model.Sink Model.Codes Model.Rice Model.Predict Model.Component Model.Flac Model.Parser Model.Ctor
   Model.Encoder
   Proofs.OpsLen Proofs.ParserP Proofs.BitRead Proofs.BitWrite Proofs.CtorP Proofs.ParseResidual Proofs.ParseSubframe
-  Proofs.EncodeFrameE2E Proofs.DecodeStream Proofs.ParseFrame Proofs.ParseFrameCtor Proofs.ParseStream Proofs.ParseEncoded Proofs.BlockHyps.
+  Proofs.EncodeFrameE2E Proofs.DecodeStream Proofs.ParseFrame Proofs.ParseFrameCtor Proofs.ParseStream Proofs.ParseEncoded Proofs.BlockHyps Proofs.ParsePrecomputed.
 Local Open Scope N_scope.
 
 Theorem C15_number_parse : forall v bytes rest c,
@@ -143,3 +148,31 @@ Theorem C15_encoded_stream_verifies :
     verify_streaminfo (s_info s) = true /\ Forall (fun f => verify_frame f = true) (s_frames s).
 Proof. exact encoded_stream_verifies. Qed.
 Print Assumptions C15_encoded_stream_verifies.
+
+(* ---- frames that carry a precomputed bit stream (the multi-threaded encoder precomputes every frame) ---- *)
+Theorem C15_precompute_coherent : forall f f',
+  pre_coherent f -> precompute f = Ok f' -> pre_coherent f' /\ strip_frame f' = strip_frame f.
+Proof. exact precompute_coherent. Qed.
+Print Assumptions C15_precompute_coherent.
+
+Theorem C15_precomputed_stream : forall s bytes,
+  info_canon (s_info s) -> Forall meta_ok (s_meta s) -> si_bps (s_info s) <= Generated.c_MAX_BITS_PER_SAMPLE ->
+  Forall (fun f => pre_coherent f /\ frame_canon (si_channels (s_info s)) (si_bps (s_info s)) (strip_frame f)) (s_frames s) ->
+  stream_bytes s = Ok bytes -> parse_stream bytes = Some (strip_stream s).
+Proof. exact precomputed_stream_parses_back. Qed.
+Print Assumptions C15_precomputed_stream.
+
+Theorem C15_par_encoded_stream :
+  forall (ent : N -> N -> N -> N) (qlpc : N -> N -> qparams) (md5 : list N -> list N)
+         cfg rate channels bps bs samples s sp bytes (total : nat),
+    encode_stream ent qlpc md5 cfg rate channels bps bs samples = Ok s ->
+    precompute_stream s = Ok sp -> stream_bytes sp = Ok bytes ->
+    cfg_max_parameter cfg <= 14 -> In bps [8; 12; 16; 20; 24] -> rate <= 96000 -> 1 <= channels <= 8 ->
+    1 <= bs <= Generated.c_MAX_BLOCK_SIZE ->
+    length samples = (total * N.to_nat channels)%nat -> N.of_nat total < 2 ^ 36 ->
+    length (md5 (md5_input bps samples)) = 16%nat -> Forall (fun x => x < 256) (md5 (md5_input bps samples)) ->
+    (forall j b, nth_error (chunks (N.to_nat (bs * channels)) samples) j = Some b ->
+                 block_hyps qlpc cfg (N.of_nat j) channels bps b (length b / N.to_nat channels)) ->
+    stream_bytes s = Ok bytes /\ parse_stream bytes = Some s /\ stream_count_bits sp = stream_count_bits s.
+Proof. exact par_encoded_stream. Qed.
+Print Assumptions C15_par_encoded_stream.
